@@ -9,12 +9,19 @@ import (
 // Populate fills a zero value of struct type t with small distinct values:
 // every int gets a different value, strings "s<n>", byte slices {n,n+1}, slices one
 // element, bools true.
-func Populate(t reflect.Type) reflect.Value {
+func Populate(t reflect.Type) reflect.Value { return PopulateN(t, 1) }
+
+// PopulateN is Populate with elems elements in every slice.
+func PopulateN(t reflect.Type, elems int) reflect.Value {
 	v := reflect.New(t).Elem()
 	n := 0
+	nelems = elems
 	fill(v, &n)
+	nelems = 1
 	return v
 }
+
+var nelems = 1
 
 func fill(v reflect.Value, n *int) {
 	switch v.Kind() {
@@ -41,8 +48,10 @@ func fill(v reflect.Value, n *int) {
 		if v.Type().Elem().Kind() == reflect.Interface {
 			return
 		}
-		s := reflect.MakeSlice(v.Type(), 1, 1)
-		fill(s.Index(0), n)
+		s := reflect.MakeSlice(v.Type(), nelems, nelems)
+		for i := 0; i < nelems; i++ {
+			fill(s.Index(i), n)
+		}
 		v.Set(s)
 	case reflect.Struct:
 		if _, custom := reflect.PointerTo(v.Type()).MethodByName("WriteTo"); custom {
